@@ -225,8 +225,14 @@ def run(chk):
                     got.add("high")
         return got == {"low", "high"}
     nbt = 0
+    tests_ = []
     for n in [x for x in nn.node.body if isinstance(x, ast.If)]:
-        t = n.test
+        # a disjunction of boundary tests sharing one body is the same as the tests one after the other
+        if isinstance(n.test, ast.BoolOp) and isinstance(n.test.op, ast.Or) and all(isinstance(v_, ast.BoolOp) and isinstance(v_.op, ast.And) for v_ in n.test.values):
+            tests_ += [(n, v_) for v_ in n.test.values]
+        else:
+            tests_.append((n, n.test))
+    for n, t in tests_:
         if not (isinstance(t, ast.BoolOp) and isinstance(t.op, ast.And) and len(t.values) == 2):
             continue
         letter = [c for c in t.values if isinstance(c, ast.Compare) and A.text(c.left).startswith(f"{me}._periodic[")
@@ -237,7 +243,7 @@ def run(chk):
         ax = 0 if A.text(letter[0].left) == f"{me}._periodic[0]" else 1
         rng = [c for c in t.values if c is not letter[0]][0]
         ok = outside_test(rng, ax)
-        chk.verdict("Q2", (nn, n), n.test, True if ok else False,
+        chk.verdict("Q2", (nn, n), t, True if ok else False,
                     f"boundary test for axis {ax} must compare `{coords[ax]}` with 0 and the size of axis {ax} (strict lower, inclusive upper bound)")
         if letter[0].comparators[0].value == "p":
             b0 = n.body[0]
@@ -366,10 +372,12 @@ def run(chk):
                     else:
                         ok, why = False, f"site[{ax}] is reduced modulo `{mod}`, which is not the period of axis {ax}"
                     break
-                if isinstance(p, ast.IfExp) and cur is p.orelse and f"self._periodic[{ax}]" in A.text(p.test):
+                if isinstance(p, ast.IfExp) and (cur is p.orelse or cur is p.body) and f"self._periodic[{ax}]" in A.text(p.test):
                     # the raw coordinate is the index only for an open boundary along this axis: evaluate the test for every
-                    # boundary letter that _periodic_dict can put on this axis
-                    wrong = [c for c in sorted(letters[ax]) if c != "o" and _eval_letter_test(p.test, f"self._periodic[{ax}]", c) is not True]
+                    # boundary letter that _periodic_dict can put on this axis; the un-reduced use sits in the branch taken when the
+                    # test is `want_raw` (False for `reduced if periodic else raw`, True for `raw if open else reduced`)
+                    want_raw = cur is p.body
+                    wrong = [c for c in sorted(letters[ax]) if c != "o" and _eval_letter_test(p.test, f"self._periodic[{ax}]", c) is want_raw]
                     undec = [c for c in sorted(letters[ax]) if _eval_letter_test(p.test, f"self._periodic[{ax}]", c) is None]
                     if undec:
                         raise AnalysisError(f"{ci.name}.site2index: cannot evaluate `{A.text(p.test)}` for boundary letter(s) {undec}")
@@ -408,7 +416,29 @@ def run(chk):
     ru = prog.cls(GEO, "RectangularUnitcell")
     ri = ru.methods.get("__init__")
     cfg = CFG(ri.node)
-    guard = [n for n in A.walk_local(ri.node) if isinstance(n, ast.If) and "len(set(envs)) > 1" in A.text(n.test)
+    def two_neighbourhoods(test):
+        """does the test hold exactly when *some* label has more than one distinct neighbourhood?  -> (True/False, quantified over .values())"""
+        neg = False
+        t = test
+        while isinstance(t, ast.UnaryOp) and isinstance(t.op, ast.Not):
+            neg = not neg
+            t = t.operand
+        if not (isinstance(t, ast.Call) and A.call_name(t) in ("any", "all") and t.args and isinstance(t.args[0], (ast.GeneratorExp, ast.ListComp))):
+            return None
+        g = t.args[0]
+        c = g.elt
+        if not (isinstance(c, ast.Compare) and len(c.ops) == 1 and isinstance(c.left, ast.Call) and A.call_name(c.left) == "len"
+                and isinstance(c.left.args[0], ast.Call) and A.call_name(c.left.args[0]) == "set"):
+            return None
+        k = A.neg_const(c.comparators[0])
+        op = type(c.ops[0]).__name__
+        more_than_one = (op, k) in (("Gt", 1), ("GtE", 2), ("NotEq", 1))
+        at_most_one = (op, k) in (("LtE", 1), ("Lt", 2), ("Eq", 1))
+        quant = A.call_name(t)
+        holds = (quant == "any" and more_than_one and not neg) or (quant == "all" and at_most_one and neg)
+        over_all = A.text(g.generators[0].iter).endswith(".values()") and A.text(c.left.args[0].args[0]) == A.text(g.generators[0].target)
+        return holds, over_all
+    guard = [n for n in A.walk_local(ri.node) if isinstance(n, ast.If) and two_neighbourhoods(n.test) is not None
              and any(isinstance(b, ast.Raise) for b in n.body)]
     stores = [n for n in A.walk_local(ri.node) if isinstance(n, ast.Assign) and A.text(n.targets[0]) in ("self._sites", "self._bonds_h", "self._bonds_v")]
     if not guard:
@@ -416,9 +446,9 @@ def run(chk):
                 "different neighbourhoods (`len(set(envs)) > 1` -> raise)")
     else:
         g = guard[0]
-        t = A.text(g.test)
-        chk.verdict("Q4", (ri, g), g.test, True if t == "any((len(set(envs)) > 1 for envs in label_envs.values()))" else False,
-                    "the neighbourhood guard no longer quantifies over all labels")
+        holds, over_all = two_neighbourhoods(g.test)
+        chk.verdict("Q4", (ri, g), g.test, True if holds and over_all else False,
+                    "the neighbourhood guard no longer raises exactly when some label (of all labels) has more than one distinct neighbourhood")
         dom = stores and all(cfg.must_pass([s], [g.test]) for s in stores)
         chk.verdict("Q4", (ri, g), "guard dominates the unique sites/bonds", True if dom else False,
                     "unique sites/bonds are assigned on a path that skips the neighbourhood guard")
